@@ -1,7 +1,9 @@
 package rules
 
 import (
+	"fmt"
 	"go/token"
+	"os"
 	"strings"
 
 	"gldapverif/an"
@@ -257,6 +259,56 @@ func checkC19(c *Ctx) {
 			})
 		}
 	}
+	// the users may be pre-selected by a filter helper: `for _, u := range d.usersWithDN(m.UserName)` where the
+	// helper returns, in order, exactly the entries of d.users whose DN equals its argument. Its elements are users
+	// for which the DN test already succeeded.
+	filterElem := ""
+	for _, ci := range an.Calls(h) {
+		call, isCall := ci.(*ssa.Call)
+		if !isCall {
+			continue
+		}
+		g := an.StaticCallee(call.Common())
+		if g == nil || !an.InModule(g) || len(call.Common().Args) != 2 || an.Canon(call.Common().Args[1]) != msg+"#0.UserName" {
+			continue
+		}
+		if why := exactDNFilter(g); why == "" {
+			filterElem = an.Canon(call) + "[*]"
+		} else {
+			R.Note("bind handler uses %s, which is not an exact-DN filter of d.users: %s", fname(g), why)
+			if os.Getenv("GLDAPCHECK_DEBUG") != "" {
+				fmt.Println("   C19 filter:", fname(g), why)
+			}
+		}
+	}
+	if filterElem != "" {
+		for k, v := range table {
+			if strings.Contains(k, elem) && v != "dnEq" {
+				nk := strings.ReplaceAll(k, elem, filterElem)
+				if strings.HasPrefix(nk, "==(") {
+					// re-sort the operands of an equality after the substitution
+					body := nk[3 : len(nk)-1]
+					depth, cut := 0, -1
+					for i := 0; i < len(body); i++ {
+						switch body[i] {
+						case '(', '[':
+							depth++
+						case ')', ']':
+							depth--
+						case ',':
+							if depth == 0 && cut < 0 {
+								cut = i
+							}
+						}
+					}
+					if cut > 0 {
+						nk = sortedEq(body[:cut], body[cut+1:])
+					}
+				}
+				table[nk] = v
+			}
+		}
+	}
 	var unknown []string
 	for _, a := range atoms {
 		if _, ok := table[a]; !ok {
@@ -310,6 +362,9 @@ func checkC19(c *Ctx) {
 		}
 		// neutral: err of the getter is the nil-ness atom "==(nil, err)": true means err == nil
 		sem["getErr"] = !sem["getErr"]
+		if filterElem != "" {
+			sem["dnEq"] = true // the loop only sees users the filter helper selected by exact DN
+		}
 		// infeasible: an empty supplied password cannot equal a non-empty... no: left independent on purpose
 		k := w.Run(val)
 		if k.Undecided != "" || k.Ret == nil {
@@ -403,4 +458,120 @@ func boolToConstHelper(f *ssa.Function) (whenTrue, whenFalse string, ok bool) {
 		}
 	}
 	return whenTrue, whenFalse, whenTrue != "" && whenFalse != "" && whenTrue != whenFalse
+}
+
+// exactDNFilter: g(d, dn) returns, in order, exactly the elements of d.users
+// whose DN equals dn: one forward range loop over d.users, one append of the
+// element under `elem.DN == dn`, nothing else stored, the appended slice
+// returned. Returns "" when it is, otherwise why not.
+func exactDNFilter(g *ssa.Function) string {
+	if len(g.Blocks) == 0 || len(g.Params) != 2 || g.Signature.Results().Len() != 1 {
+		return "unexpected signature"
+	}
+	var head *ssa.If
+	nLoops := 0
+	an.Instrs(g, func(in ssa.Instruction) {
+		if iff, ok := in.(*ssa.If); ok && an.IsRangeHeader(iff) {
+			nLoops++
+			head = iff
+		}
+	})
+	if nLoops != 1 {
+		return sprintf("%d range loops", nLoops)
+	}
+	// over d.users
+	bo, _ := head.Cond.(*ssa.BinOp)
+	var lenArg ssa.Value
+	if bo != nil {
+		if lc, ok := bo.Y.(*ssa.Call); ok && len(lc.Common().Args) == 1 {
+			lenArg = lc.Common().Args[0]
+		}
+	}
+	if base, ok := fieldLoad(lenArg, TD, "Directory", "users"); !ok || an.Strip(base) != ssa.Value(g.Params[0]) {
+		return "the loop does not range over d.users"
+	}
+	isElem := func(v ssa.Value) bool {
+		ld, ok := an.Strip(v).(*ssa.UnOp)
+		if !ok {
+			return false
+		}
+		ia, ok := ld.X.(*ssa.IndexAddr)
+		return ok && an.IsRangeIdx(ia.Index)
+	}
+	isDNEq := func(v ssa.Value) bool {
+		b, ok := v.(*ssa.BinOp)
+		if !ok || b.Op != token.EQL {
+			return false
+		}
+		for _, pair := range [][2]ssa.Value{{b.X, b.Y}, {b.Y, b.X}} {
+			if e, okF := fieldLoad(pair[0], G, "Entry", "DN"); okF && isElem(e) && an.Strip(pair[1]) == ssa.Value(g.Params[1]) {
+				return true
+			}
+		}
+		return false
+	}
+	nApp := 0
+	bad := ""
+	an.Instrs(g, func(in ssa.Instruction) {
+		switch x := in.(type) {
+		case *ssa.Store:
+			a := x.Addr
+			for i := 0; i < 8; i++ {
+				switch y := a.(type) {
+				case *ssa.IndexAddr:
+					a = y.X
+				case *ssa.FieldAddr:
+					a = y.X
+				}
+			}
+			if _, local := an.CellRoot(a).(*ssa.Alloc); !local {
+				bad = "stores outside its own locals"
+			}
+		case *ssa.Call:
+			if b, isB := x.Common().Value.(*ssa.Builtin); isB {
+				if b.Name() == "append" {
+					nApp++
+					if !hasFact(x.Block(), true, isDNEq) {
+						bad = "appends an element without the exact DN test"
+					}
+					// the appended element is the loop element
+					okE := false
+					if sl, ok := x.Common().Args[1].(*ssa.Slice); ok {
+						if al, ok := sl.X.(*ssa.Alloc); ok {
+							for _, r := range *al.Referrers() {
+								if ia, ok := r.(*ssa.IndexAddr); ok {
+									for _, rr := range *ia.Referrers() {
+										if st, ok := rr.(*ssa.Store); ok && isElem(st.Val) {
+											okE = true
+										}
+									}
+								}
+							}
+						}
+					}
+					if !okE {
+						bad = "appends something else than the loop element"
+					}
+				}
+				return
+			}
+			if x.Common().IsInvoke() && an.TypeIs(x.Common().Value.Type(), "github.com/hashicorp/go-hclog", "Logger") {
+				return
+			}
+			bad = "calls " + an.Path(x.Common().Value)
+		}
+	})
+	if bad != "" {
+		return bad
+	}
+	if nApp != 1 {
+		return sprintf("%d appends", nApp)
+	}
+	// every element that passes the test is appended: no other exit from the loop body than the back edge
+	for _, ret := range an.Returns(g) {
+		if head.Block().Succs[0].Dominates(ret.Block()) && !head.Block().Succs[1].Dominates(ret.Block()) {
+			return "returns from inside the loop"
+		}
+	}
+	return ""
 }
